@@ -1,4 +1,4 @@
-(* C28 — proofs about the model (no dependency on the generated tables; see GenProofs.v). *)
+(* C28 — proofs about the model (no dependency on the generated tables; see TableProofs.v). *)
 From Coq Require Import List ZArith Bool Arith Lia.
 Import ListNotations.
 From PV Require Import Fort.Syntax Fort.Sem Base.Harness C28.Model.
